@@ -53,6 +53,8 @@ def property_loop(fn: Function, L: Locals) -> List[ast.For]:
 
 
 def run(repo: Repo, rep: Report, tier: str) -> None:
+    from sa.report import guarded as _guarded
+
     ps = repo.func(f"{SP}:_parse_schema")
     cfg = CFG(ps.node)
     dom = cfg.dominators()
@@ -117,29 +119,29 @@ def run(repo: Repo, rep: Report, tier: str) -> None:
     # ---------------------------------------------------------------- R2.9 the recursion context is threaded through every recursive parse
     threading_rule(repo, rep, "R2.9")
 
-    rule_exact_registry_lookups(repo, rep, "R2.10")
-    rule_name_fallback_respects_kind(repo, rep, "R2.11")
-    rule_properties_never_alias(repo, rep, "R2.12")
-    rule_union_members_kept(repo, rep, "R2.13")
-    rule_key_does_not_shadow_declared_name(repo, rep, "R2.14")
+    _guarded(rep, rule_exact_registry_lookups, repo, rep, "R2.10")
+    _guarded(rep, rule_name_fallback_respects_kind, repo, rep, "R2.11")
+    _guarded(rep, rule_properties_never_alias, repo, rep, "R2.12")
+    _guarded(rep, rule_union_members_kept, repo, rep, "R2.13")
+    _guarded(rep, rule_key_does_not_shadow_declared_name, repo, rep, "R2.14")
     from rules._registry import rule_raw_name_index
 
-    rule_raw_name_index(repo, rep, "R2.15")
+    _guarded(rep, rule_raw_name_index, repo, rep, "R2.15")
     # R2.16: two inline property schemas of one object never share an invented name (each property is typed with its own enum / model)   [= R19.10]
     from rules.c19 import rule_sibling_names_are_distinct
 
-    rule_sibling_names_are_distinct(repo, rep, "R2.16")
-    rule_invented_names_avoid_declared(repo, rep, "R2.17")
-    rule_all_of_merge_is_completed(repo, rep, "R2.22")
+    _guarded(rep, rule_sibling_names_are_distinct, repo, rep, "R2.16")
+    _guarded(rep, rule_invented_names_avoid_declared, repo, rep, "R2.17")
+    _guarded(rep, rule_all_of_merge_is_completed, repo, rep, "R2.22")
     # R2.23: "every named schema is represented by exactly one model": no schema is taken out between de-collision and the writing of the
     # model files (a bookkeeping flag such as `_from_unresolved_ref` is also set on real, fully parsed schemas at the head of a cycle)   [= R1.8, file filter]
     from rules.c01 import _models_emitter_rules
     from rules._reuse import _Filter as _F223
 
     _models_emitter_rules(repo, _F223(rep, {"R1.8": "R2.23"}, only=lambda subj: "file filter" in subj))
-    rule_annotated_reference(repo, rep, "R2.19")
-    rule_invented_names_are_per_node(repo, rep, "R2.21")
-    rule_allof_type_follows_members(repo, rep, "R2.20")
+    _guarded(rep, rule_annotated_reference, repo, rep, "R2.19")
+    _guarded(rep, rule_invented_names_are_per_node, repo, rep, "R2.21")
+    _guarded(rep, rule_allof_type_follows_members, repo, rep, "R2.20")
     # R2.18: leaving a schema always takes it off the tracker's stack and completes it, wherever it sits: a schema left "in progress" makes a
     # later inline reference to it look like a cycle, and the finished schema is then replaced by the empty placeholder (the replacement
     # itself is the known finding R2.1)                                                                                       [= R8.5]
